@@ -48,14 +48,43 @@ def symmetric_composite_case(draw, mode):
     return {'defs': G.defs, 'expr': expr, 'probe': draw(st.lists(st.integers(0, 1000), min_size=8, max_size=8))}
 
 
+# einsum blocks with the SAME block subscripts in different roles: which two block axes a transposition swaps depends on
+# the input and output subscripts too (summed axis <-> axis carried to the output; the third one is a batch axis)
+_ROLES = {
+    'kij': ['kij,kj->ki', 'kij,ij->ik', 'kij,ki->kj', 'kij,ik->ij', 'kij,jk->ji', 'kij,ji->jk'],
+    'ij': ['ij,j->i', 'ij,i->j'],
+}
+
+
+@st.composite
+def dense_roles_case(draw, mode):
+    """Several einsum-block operators sharing their block subscripts, transposed one after the other (sum or product):
+    every transpose is the adjoint of ITS operator, whatever was transposed before."""
+    lefts = draw(st.sampled_from(['kij', 'kij', 'kij', 'ij']))
+    d = draw(st.integers(2, 3))
+    dt = draw(st.sampled_from(gen.dtypes(mode)))
+    S = St.leaf([d] * (len(lefts) - 1), dt)
+    n = draw(st.integers(2, 3))
+    opsl = []
+    for _ in range(n):
+        sub = draw(st.sampled_from(_ROLES[lefts]))
+        b = np.asarray(draw(st.lists(st.integers(-3, 3), min_size=d ** len(lefts), max_size=d ** len(lefts))), dtype=float)
+        opsl.append({'k': 'dense', 'in': S, 'blocks': {'shared': b.reshape([d] * len(lefts)).tolist()}, 'subscripts': sub,
+                     'vdtype': 'float32'})
+    if draw(st.booleans()):
+        expr = {'k': 'add', 'ops': opsl, 'via': draw(st.sampled_from(['list', 'plus'])), 'tree': gen._ptree(draw, n)}
+    else:
+        expr = {'k': 'compose', 'ops': opsl, 'via': draw(st.sampled_from(['list', 'matmul'])), 'tree': gen._ptree(draw, n)}
+    return {'defs': [], 'expr': expr, 'probe': draw(st.lists(st.integers(0, 1000), min_size=8, max_size=8))}
+
+
 def strategy(tier, mode):
+    # (one_of de-duplicates a strategy object listed several times: build one object per listed branch)
+    small = lambda: gen.expression_case(mode, cap=20, max_len=4, depth=2, allow_cg=False)  # noqa: E731
+    big = lambda: gen.expression_case(mode, cap=36, max_len=7, depth=3, allow_cg=False)  # noqa: E731
     if tier == 'quick':
-        return st.one_of(*([gen.expression_case(mode, cap=20, max_len=4, depth=2, allow_cg=False)] * 5),
-                         symmetric_composite_case(mode))
-    return st.one_of(*([gen.expression_case(mode, cap=20, max_len=4, depth=2, allow_cg=False)] * 3),
-                     gen.expression_case(mode, cap=36, max_len=7, depth=3, allow_cg=False),
-                     gen.expression_case(mode, cap=36, max_len=7, depth=3, allow_cg=False),
-                     symmetric_composite_case(mode))
+        return st.one_of(small(), small(), small(), small(), small(), symmetric_composite_case(mode), dense_roles_case(mode))
+    return st.one_of(small(), small(), small(), big(), big(), symmetric_composite_case(mode), dense_roles_case(mode))
 
 
 def check(case, mode):
